@@ -5,9 +5,11 @@
        [type, isize, hi, dsize, nbytes, ehmax, bs, coff, count, tail]
    (only the fields its type needs are meaningful, the others are 0):
      sb       superblock, 1024 bytes, crc32c over bytes 0..1019, checksum at 1020..1023
-     gd       group descriptor of dsize bytes (32 or 64), checksum field at 30..31 skipped (crc32c & 0xFFFF, or crc16)
+     gd       group descriptor of dsize bytes (s_desc_size: 32, 64, 128 ...; every byte up to dsize is covered, also the ones
+              no field uses yet), checksum field at 30..31 skipped (crc32c & 0xFFFF, or crc16)
      bb / ib  bitmap: the first nbytes bytes (clusters_per_group/8, inodes_per_group/8); the rest of the block is padding
-     inode    isize bytes; i_checksum_lo (124..125) skipped; i_checksum_hi (130..131) skipped iff hi = 1 (extra_isize >= 4)
+     inode    isize bytes (s_inode_size: 128, 256, 512 ...); i_checksum_lo (124..125) skipped; i_checksum_hi (130..131) skipped
+              iff hi = 1 (extra_isize >= 4)
      extblk   extent block: header + ehmax entries (12 bytes each); the 4-byte tail follows
      dirleaf  directory leaf / linear block: everything before the 12-byte tail
      dxnode   htree root / interior node: bytes before coff + 8*count (the used index entries), plus the 4 reserved bytes of the
